@@ -123,6 +123,44 @@ class TreePass(BasePass):
         data['tree_result'] = await run_tree(self.tree)
 
 
+async def table_probe_leaf(arg: int) -> list:
+    """Runs on whatever worker the runtime picks; reports what that worker
+    still holds that does not belong to the probing compilation."""
+    import time
+    rt = get_runtime()
+    at = rt._active_task  # type: ignore
+    time.sleep(0.01)
+    stale = [
+        [t.comp_task_id, list(a)] for a, t in list(rt._tasks.items())  # type: ignore
+        if t.comp_task_id != at.comp_task_id
+    ]
+    return [
+        rt._id, len(stale), stale[:4], len(rt._mailboxes),  # type: ignore
+        sum(1 for t in list(rt._delayed_tasks) if t.comp_task_id != at.comp_task_id),  # type: ignore
+    ]
+
+
+class TableProbePass(BasePass):
+    """Maps table_probe_leaf over `n` items and reports per-worker tables.
+    The only mailbox this compilation owns is the root's map mailbox."""
+
+    def __init__(self, n: int) -> None:
+        self.n = n
+
+    async def run(self, circuit: Any, data: Any) -> None:
+        rt = get_runtime()
+        res = await rt.map(table_probe_leaf, list(range(self.n)))
+        data['tables'] = {'root_worker': rt._id, 'leaves': res}  # type: ignore
+
+
+class ProbePass(BasePass):
+    """Reports the thread switch interval of the worker that runs it."""
+
+    async def run(self, circuit: Any, data: Any) -> None:
+        import sys
+        data['switch_interval'] = sys.getswitchinterval()
+
+
 # ------------------------------------------------------------- interpreter
 class Expect:
     """What the documented semantics say a tree evaluates to."""
